@@ -400,6 +400,8 @@ def run(facts, tier):
     # ---------------- U17.7 standard input and file arguments treat UTF-8 alike (shared with C07 T7.5)
     from c07 import rule_utf8_sync
     rules.append(rule_utf8_sync(facts, "U17.7").finish())
+    from c14 import rule_stream_error_polled
+    rules.append(rule_stream_error_polled(facts, "E17.10").finish())
 
     # ---------------- P17.8 an explicit input format beats the file extension
     p8 = Rule("P17.8", "`--from` / `-R` / `--raw-input0` take precedence over the format guessed from a file's extension: wherever the driver combines the option with "
@@ -467,6 +469,19 @@ def run(facts, tier):
             if not (guarded and rejects):
                 n9.violate(f"raw0/{kind}", f"a {'text' if kind == 'TStr' else 'byte'} string written with --raw-output0 is not tested for NUL before its bytes are written: the value would read back as two values", where=m_["sp"])
     rules.append(n9.finish())
+
+    # ---------------- N17.11 raw input is split, never trimmed
+    n11 = Rule("N17.11", "the dispatch of the readers (`jaq_fmts::read::formats`: raw text, raw0, lines, the per-format parsers) removes at most one trailing separator (`strip_suffix`): "
+               "it calls no `trim*` function on the input, which would remove a run of separators or blanks and lose empty trailing records (`a\\0\\0` is `\"a\", \"\"`)", floor=5)
+    for body in facts.mir("jaq_fmts"):
+        if not body["def"].startswith("jaq_fmts::read::formats::") or body.get("test"):
+            continue
+        bb_ = Body(body)
+        trims = [(i, t) for i, t in bb_.calls() if re.search(r"(^|::)trim(_\w+)?$", re.sub(r"::<[^>]*>$", "", t.get("fn") or ""))]
+        n11.examined(("reader-dispatch", body["def"]), True, {"fn": body["def"], "trim_calls": len(trims)})
+        for i, t in trims:
+            n11.violate(f"trim/{body['def'].split('::{closure')[0]}/{(t.get('fn') or '').rsplit('::', 1)[-1]}", f"`{body['def']}` calls `{t.get('fn')}` on the input: more than the one final separator can be removed (trailing empty records of a raw0 input are lost)", where=t["sp"])
+    rules.append(n11.finish())
 
     # ---------------- I17.6 one input stream
     i6 = Rule("I17.6", "one input stream: the function that builds the run-time data wraps the caller's input iterator in exactly one shared iterator; the main loop iterates "
